@@ -20,6 +20,11 @@ pub fn internal_mode(mode: &str, _args: &[String]) -> i32 {
     match mode {
         // decoder worker of engine E (C15): requests on stdin, answers on stdout
         "codec-worker" => prop_c15::worker_main(),
+        // sensitivity self-test of the C14 oracles (mutant codecs, projection edits)
+        "codec-selftest" => {
+            framework::install_quiet_panic_hook();
+            engine_codec::selftest()
+        }
         _ => {
             eprintln!("unknown mode {mode}");
             2
